@@ -32,7 +32,12 @@ META = {
     "C02": {
         "category": "proof",
         "text": ("PARTIAL. Safety invariants of the timer/retransmission state machines are Lean theorems (PTO armed whenever ack-eliciting "
-                 "data is in flight, PTO backoff, idle deadline bound); the liveness clause cannot be proved for the real executor and is "
+                 "data is in flight, PTO backoff, idle deadline bound), as are the waker invariants: no stream reader/writer is parked without "
+                 "its blocking condition holding, and for the read waiter under ANY low watermark / request size a stored waker's watermark is "
+                 "never already met and a parked reader never holds half the window, and a writer parked by reset+flush is released exactly by "
+                 "the reset acknowledgement or the connection end (C02RxWake, C02ResetFlush; the watermark expressions of on_data and "
+                 "poll_request are translated from /repo's text on every run and proved equal to the model's, a broken bridge triggers a search "
+                 "of the model twin for a lost wake-up history); the liveness clause cannot be proved for the real executor and is "
                  "validated by end-to-end runs: finite fault prefixes including total blackholes at every phase followed by recovery must "
                  "complete, permanent blackholes must be reported by both endpoints no later than the effective idle deadline "
                  "(restart time + max(idle, 3 x current PTO)), and the simulator's stall detector must never fire."),
